@@ -13,7 +13,8 @@
 (* record cap) and emits one case per (site, L); the harness builds the    *)
 (* real inputs and the crate's answer is compared in full.  The input is a *)
 (* lazily defined function; nothing is materialised.                       *)
-(* quick: a residue sample of every domain; thorough: every L.             *)
+(* quick: a residue sample of every domain (~600 L per site); thorough:    *)
+(* every L up to 2048 and a denser residue sample beyond (~6500 per site).  *)
 (***************************************************************************)
 EXTENDS Calls, Emit
 Rep(x, n) == [j \in 1..n |-> x]
@@ -136,11 +137,11 @@ Lmax(s) == IF s.fields = <<>> THEN 65535 ELSE Min2(65535, Pow(s.fields[1][2]) - 
 (* the sampled residues: every domain is visited at the start, around every multiple of 256, at the DER-looking low bytes, *)
 (* around the record caps and at a seeded stride                                                                          *)
 Sampled(s, L) ==
-  \/ Thorough
-  \/ L <= Lmin(s) + 16
+  \/ L <= Lmin(s) + (IF Thorough THEN 2048 ELSE 16)
   \/ (L % 256) \in {0, 130}
   \/ L \in 16383..16385 \/ L \in 16639..16641 \/ L >= 65533
   \/ (L * 7919) % 1021 = 13
+  \/ (Thorough /\ ((L % 32) \in {0, 2} \/ (L % 256) = 255 \/ L \in 16370..16660))
 Doms == [k \in 1..NS |-> SetToSeq({L \in Lmin(Sites[k])..Lmax(Sites[k]) : Sampled(Sites[k], L)})]
 ASSUME TLCSet(5, Doms)
 Dom(k) == TLCGet(5)[k]
